@@ -360,6 +360,22 @@ func truncScenario(c *Ctx, sh truncShape) {
 			if _, err := w.Propose(a, &tt); err == nil {
 				c.Violate("C07", "checkpointed-transaction-resealed", "CreateLeaf sealed a checkpointed transaction again", info)
 			}
+			// the same checkpointed transaction wrapped in ANOTHER vertex (sealed by a wallet on the current tip) and
+			// gossiped in: its holder left the live DAG, it is sealed all the same
+			if cur := a.ab.VerifSnapshot(); len(cur.Leaves) > 0 {
+				var tipW uint64
+				for i := range cur.Vertices {
+					if cur.Vertices[i].Hash == cur.Leaves[0] {
+						tipW = cur.Vertices[i].Weight
+					}
+				}
+				if nv, err := accountant.NewVertex(v.Transaction, cur.Leaves[0], cur.Leaves[0], tipW+1, w.wallets[3]); err == nil && v.Transaction.IssuerAddress != w.wallets[3].Address() {
+					if err := w.Add(a, &nv); err == nil {
+						c.Violate("C03", "checkpointed-transaction-sealed-again-by-gossip", "AddLeaf admitted a new vertex carrying a transaction whose holder is checkpointed", info)
+						c.Violate("C07", "checkpointed-transaction-resealed", "AddLeaf admitted a new vertex carrying a checkpointed transaction", info)
+					}
+				}
+			}
 		}
 	}
 	// ---- the saver spends exactly what is checkpointed for it (its next checkpoint must become zero)
